@@ -20,7 +20,7 @@ import (
 func init() {
 	Register(&Monitor{
 		ID: "C06",
-		Rule: "per case: '$x op $y' for + - * div mod and '-$x' over all boundary x boundary pairs of a sampled boundary subset plus random pairs (bit patterns, divisors in (-1,1), ties, >2^63), floor/ceiling/round over boundary doubles, every k+-0.5 for |k|<=20 and values around 2^52..2^63, sum()/count() over node-sets of numeric, fractional, negative, whitespace-padded and non-numeric text; " +
+		Rule: "per case: '$x op $y' for + - * div mod and '-$x' over all boundary x boundary pairs of a sampled boundary subset plus random pairs (bit patterns, divisors in (-1,1), ties, >2^63), floor/ceiling/round over boundary doubles, every k+-0.5 for |k|<=20 and values around 2^52..2^63, sum()/count() over node-sets of numeric, fractional, negative, whitespace-padded and non-numeric text; arithmetic whose operands are bare element names (among them names spelled like numerals of other languages: nan, inf, Infinity, NaN, e) evaluated from the parent element against the reference model; " +
 			"oracle: Go IEEE arithmetic written independently (math.Mod, floor(x)+tie rule, float summation in document order), bit-pattern comparison incl. sign of zero for the operators, NaN-aware without zero sign for round/floor/ceiling; any error (in particular 'xpath query panic') is a violation. distinct_nontrivial = distinct (operation, operand classes, result class)",
 		Assumptions: []string{"the sign of zero is not judged for round/floor/ceiling (the statement is silent on it)"},
 		NCases:      func(tier string) int { return map[string]int{"quick": 2000, "thorough": 80000}[tier] },
@@ -180,6 +180,44 @@ func c06Case(r *evid.Run, tier string, idx int, g *rng.R) {
 				continue
 			}
 			viol("round/"+fn, fmt.Sprintf("%s(%s) = %s, expected %s", fn, showDouble(v), bridge.Show(got), showDouble(want)))
+		}
+	}
+	// bare element names as operands: the operand is number() of the selected element's string-value
+	// whatever the name looks like
+	{
+		names := []string{"n", "price", "nan", "inf", "Infinity", "NaN", "infinity", "Inf", "INF", "nAn", "e", "E", "x1", "i", "d", "hex"}
+		rng.Shuffle(g, names)
+		nd := adoc.NewDoc()
+		top := nd.AddElem(nd.Root, "", "stats")
+		for _, nm := range names[:6] {
+			el := nd.AddElem(top, "", nm)
+			nd.AddText(el, rng.Pick(g, []string{"2", "3", "7", "0.5", "-4", "10", " 6 ", "x", ""}))
+		}
+		nd.Finish()
+		if nw, err := newWorld(nd); err == nil {
+			nm := func() xast.Expr {
+				return xast.Rel(xast.Step{Axis: "child", Test: xast.NameT("", rng.Pick(g, names[:7])), Abbrev: true})
+			}
+			for i := 0; i < 14; i++ {
+				op := rng.Pick(g, []string{"+", "-", "*", "div", "mod"})
+				var e xast.Expr
+				switch g.Intn(5) {
+				case 0:
+					e = xast.Binary{Op: op, L: nm(), R: nm()}
+				case 1:
+					e = xast.Binary{Op: op, L: nm(), R: xast.N(float64(g.Range(1, 4)))}
+				case 2:
+					e = xast.Binary{Op: op, L: xast.N(float64(g.Range(1, 4))), R: nm()}
+				case 3:
+					e = xast.Neg{X: nm()}
+				default:
+					e = xast.Binary{Op: op, L: xast.Binary{Op: rng.Pick(g, []string{"+", "*"}), L: nm(), R: nm()}, R: nm()}
+				}
+				if v, ok := nw.check(r, "name-operand/"+opOf(e), idx, top, e, true); ok {
+					r.Tab("operator", "name-operand:"+opOf(e), 1)
+					r.Sig("nameop|"+xast.String(e)+"|"+bridge.Show(v), true)
+				}
+			}
 		}
 	}
 	// sum / count over node-sets
